@@ -8,7 +8,7 @@ import os
 
 from ..cfg import cfg_of
 from ..model import AnalysisError, call_name, calls_in, dotted, norm
-from .. import machines, rules
+from .. import inline, machines, rules
 
 REF = os.path.join(os.path.dirname(os.path.dirname(__file__)), "reference", "e30_comm.json")
 
@@ -72,7 +72,7 @@ def check_machine(ctx):
 def _state_conds(cfg, n):
     """[(member, truth)] for dominating tests `self._communication_state.current == CommunicationState.X`."""
     out = []
-    for t, v in cfg.dominating_conditions(n):
+    for t, v in cfg.dominating_conditions(n, derive=True):
         if isinstance(t, ast.Compare) and len(t.ops) == 1 and norm(t.left) == "self._communication_state.current" and norm(t.comparators[0]).startswith("CommunicationState."):
             member = norm(t.comparators[0]).split(".")[-1]
             if isinstance(t.ops[0], (ast.Eq, ast.Is)):
@@ -84,12 +84,9 @@ def _state_conds(cfg, n):
 
 def _sf_conds(cfg, n, param):
     s = f = None
-    for t, v in cfg.dominating_conditions(n):
-        if not v:
-            continue
-        parts = t.values if isinstance(t, ast.BoolOp) and isinstance(t.op, ast.And) else [t]
-        for p in parts:
-            if isinstance(p, ast.Compare) and len(p.ops) == 1 and isinstance(p.ops[0], ast.Eq) and isinstance(p.comparators[0], ast.Constant):
+    for p, v in cfg.dominating_conditions(n, derive=True):
+        if isinstance(p, ast.Compare) and len(p.ops) == 1 and isinstance(p.comparators[0], ast.Constant):
+            if (isinstance(p.ops[0], ast.Eq) and v) or (isinstance(p.ops[0], ast.NotEq) and not v):
                 if norm(p.left) == f"{param}.header.stream":
                     s = p.comparators[0].value
                 if norm(p.left) == f"{param}.header.function":
@@ -102,7 +99,7 @@ def check_message_received(ctx):
     f = repo.method("GemHandler", "_on_message_received", inherited=False)
     ctx.touch(f)
     q = f.qualname
-    fn = f.node
+    fn = inline.expanded(ctx, f, keep={"_handle_stream_function"})
     cfg = cfg_of(fn)
     dp = fn.args.args[1].arg
     msgvars = {t.id for s in rules.func_stmts(fn) if isinstance(s, ast.Assign) and norm(s.value) == f"{dp}['message']" for t in s.targets if isinstance(t, ast.Name)}
@@ -177,16 +174,14 @@ def check_message_received(ctx):
 
 
 def _guarded_by_zero(cfg, node, depends) -> bool:
-    for t, v in cfg.dominating_conditions(node):
-        parts = t.values if isinstance(t, ast.BoolOp) and isinstance(t.op, ast.And) and v else [t]
-        for p in parts:
-            if isinstance(p, ast.Compare) and len(p.ops) == 1 and isinstance(p.comparators[0], ast.Constant) and p.comparators[0].value == 0 and depends(p.left):
-                if isinstance(p.ops[0], ast.Eq) and v:
-                    return True
-                if isinstance(p.ops[0], ast.NotEq) and not v:
-                    return True
-            if isinstance(p, ast.UnaryOp) and isinstance(p.op, ast.Not) and depends(p.operand) and v:
+    for p, v in cfg.dominating_conditions(node, derive=True):
+        if isinstance(p, ast.Compare) and len(p.ops) == 1 and isinstance(p.comparators[0], ast.Constant) and p.comparators[0].value == 0 and depends(p.left):
+            if isinstance(p.ops[0], ast.Eq) and v:
                 return True
+            if isinstance(p.ops[0], ast.NotEq) and not v:
+                return True
+        if not isinstance(p, (ast.Compare, ast.BoolOp, ast.UnaryOp)) and depends(p) and not v:
+            return True  # `if not commack:` - the value is falsy, i.e. 0
     return False
 
 
@@ -287,7 +282,7 @@ def check_timers(ctx, m):
         if not ok:
             continue
         t = timers[0]
-        dur, cb = norm(t.args[0]), dotted(t.args[1])
+        dur, cb = rules.expand(eh.node, t.args[0]), dotted(t.args[1])
         ok = dur == sp["duration"]
         ctx.ob("C07.P4", eh.qualname, ok, f"the timer runs for {sp['duration']}" if ok else f"the timer runs for {dur}, not {sp['duration']}", key="duration", where=eh.where)
         assigned = [dotted(tg) for s in rules.func_stmts(eh.node) if isinstance(s, ast.Assign) and s.value is t for tg in s.targets]
@@ -317,11 +312,15 @@ def check_timers(ctx, m):
     cfg = cfg_of(sender.node)
     sends = [(n, c) for n in cfg.real_nodes() for c in n.calls if call_name(c) == "self.send_stream_function"]
     cnt = cfg.count_on_paths(lambda n: any(n is s for s, _ in sends), cfg.entry, cfg.exit, no_exc=True)
-    ok = cnt == (1, 1) and all(isinstance(c.args[0], ast.Call) and isinstance(c.args[0].func, ast.Call) and [norm(x) for x in c.args[0].func.args] == ["1", "13"] for _, c in sends)
-    ctx.ob("C07.P4", sender.qualname, ok, "entering WAIT_CRA sends exactly one S1F13" if ok else f"S1F13 sends on entering WAIT_CRA: {cnt}", key="s1f13-once", where=sender.where)
-    for n, c in sends:
-        host = any(norm(t) == "self._is_host" and v for t, v in cfg.dominating_conditions(n))
-        body = c.args[0].args
+    values = [(v, conds) for n, c in sends if c.args for v, conds in rules.reaching_values(sender.node, cfg, n, c.args[0])]
+    is_s1f13 = lambda v: isinstance(v, ast.Call) and isinstance(v.func, ast.Call) and call_name(v.func) == "self.stream_function" and [norm(x) for x in v.func.args] == ["1", "13"]  # noqa: E731
+    ok = cnt == (1, 1) and bool(values) and all(is_s1f13(v) for v, _ in values)
+    ctx.ob("C07.P4", sender.qualname, ok, "entering WAIT_CRA sends exactly one S1F13" if ok else f"S1F13 sends on entering WAIT_CRA: {cnt}, values {[norm(v) for v, _ in values]}", key="s1f13-once", where=sender.where)
+    for v, conds in values:
+        if not is_s1f13(v):
+            continue
+        host = any(norm(t) == "self._is_host" and tv for t, tv in conds)
+        body = v.args
         ok = (host and not body) or (not host and len(body) == 1 and norm(body[0]) == "[self._mdln, self._softrev]")
         ctx.ob("C07.P4", sender.qualname, ok, ("host sends an empty S1F13" if host else "equipment sends S1F13 with MDLN/SOFTREV") if ok else f"S1F13 body for {'host' if host else 'equipment'} is {[norm(b) for b in body]}", key="s1f13-body " + ("host" if host else "equipment"), where=sender.where)
     h = regs2.get("self._communication_state.communicating.events.enter")
